@@ -21,7 +21,7 @@ Rec == ndJsonDeserialize(IOEnv.TRACE)
 Rule(l, name, cond, detail) ==
   IF name \notin RulesOn THEN TRUE
   ELSE IF cond THEN TRUE
-  ELSE PrintT(<<"RULE-FAIL", l, name, detail>>)
+  ELSE PrintT("RULE-FAIL " \o ToJson(<<l, name, detail>>))
 
 Has(r, f) == f \in DOMAIN r
 =============================================================================
